@@ -44,6 +44,10 @@ theorem setLinkToHardlink_view : view G (setLinkToHardlink e1) = view G (setLink
 theorem setLinkToSymlink_view : view G (setLinkToSymlink e1) = view G (setLinkToSymlink e2) := by
   entry_view setLinkToSymlink
 theorem setFflags_view (s c : Nat) : view G (setFflags e1 s c) = view G (setFflags e2 s c) := by entry_view setFflags
+theorem copyFflagsText_view (s : Bytes) : view G (copyFflagsText e1 s) = view G (copyFflagsText e2 s) := by
+  entry_view copyFflagsText
+theorem fflagsText_view : view G (fflagsText e1).1 = view G (fflagsText e2).1 := by
+  entry_view fflagsText, fflagsTextV
 theorem setSymlinkType_view (t : Int) : view G (setSymlinkType e1 t) = view G (setSymlinkType e2 t) := by
   entry_view setSymlinkType
 theorem setIsDataEncrypted_view (b : Bool) : view G (setIsDataEncrypted e1 b) = view G (setIsDataEncrypted e2 b) := by
